@@ -72,8 +72,18 @@ class FakeTransport(Transport):
 _LINE = re.compile(r"\A(-?\d+);(-?\d+);(-?\d+);(-?\d+);(-?\d+);([^\n]*)\n\Z")
 
 
-def small(i: int) -> int | str:
+def small(i) -> int | str:
+    """Integers TLC can hold; anything else becomes an opaque token (which no reference value equals)."""
+    if isinstance(i, bool) or not isinstance(i, int):
+        try:
+            i = int(i)
+        except Exception:  # noqa: BLE001
+            return f"NONINT:{type(i).__name__}"
     return i if -BIG < i < BIG else f"BIG:{i}"
+
+
+def text_of(x) -> str:
+    return x if isinstance(x, str) else f"NONSTR:{type(x).__name__}:{x!r}"[:80]
 
 
 def parse_write(line) -> dict:
@@ -86,24 +96,30 @@ def parse_write(line) -> dict:
 
 
 def proj_child(child: Child) -> dict:
-    return {
-        "type": small(int(child.child_type)),
-        "desc": child.description,
-        "vals": [[small(int(k)), v] for k, v in sorted(child.values.items())],
-    }
+    try:
+        vals = [[small(k), text_of(v)] for k, v in sorted(child.values.items(), key=lambda kv: str(kv[0]))]
+        vals.sort(key=lambda kv: (isinstance(kv[0], str), kv[0]))
+    except Exception:  # noqa: BLE001
+        vals = [["UNREADABLE", ""]]
+    return {"type": small(child.child_type), "desc": text_of(child.description), "vals": vals}
 
 
 def proj_node(node: Node) -> dict:
+    try:
+        children = [[small(cid), proj_child(ch)] for cid, ch in sorted(node.children.items(), key=lambda kv: str(kv[0]))]
+        children.sort(key=lambda kv: (isinstance(kv[0], str), kv[0]))
+    except Exception:  # noqa: BLE001
+        children = [["UNREADABLE", {"type": 0, "desc": "", "vals": []}]]
     return {
-        "type": small(int(node.node_type)),
-        "ver": node.protocol_version,
-        "bat": small(node.battery_level) if isinstance(node.battery_level, int) else "NONINT",
-        "sn": node.sketch_name,
-        "sv": node.sketch_version,
-        "hb": small(node.heartbeat) if isinstance(node.heartbeat, int) else "NONINT",
+        "type": small(node.node_type),
+        "ver": text_of(node.protocol_version),
+        "bat": small(node.battery_level) if isinstance(node.battery_level, int) and not isinstance(node.battery_level, bool) else f"NONINT:{node.battery_level!r}"[:40],
+        "sn": text_of(node.sketch_name),
+        "sv": text_of(node.sketch_version),
+        "hb": small(node.heartbeat) if isinstance(node.heartbeat, int) and not isinstance(node.heartbeat, bool) else f"NONINT:{node.heartbeat!r}"[:40],
         "sl": bool(node.sleeping),
-        "rb": bool(node.reboot),
-        "ch": [[small(int(cid)), proj_child(ch)] for cid, ch in sorted(node.children.items())],
+        "rb": bool(getattr(node, "reboot", False)),
+        "ch": children,
     }
 
 
@@ -112,7 +128,8 @@ def proj(gateway: Gateway) -> dict:
     return {
         "ver": "none" if gateway.protocol_version is None else gateway.protocol_version,
         "proto": gateway.protocol.VERSION,
-        "nodes": [[small(int(nid)), proj_node(node)] for nid, node in sorted(gateway.nodes.items())],
+        "nodes": sorted([[small(nid), proj_node(node)] for nid, node in gateway.nodes.items()],
+                        key=lambda kv: (isinstance(kv[0], str), kv[0])),
     }
 
 
